@@ -43,7 +43,7 @@ def configs(tier, seed):
     out = []
     N = (lambda q, t: q if tier == 'quick' else t)
     # binary arithmetic with every sizing policy, Fxp and constant operands
-    for _ in range(N(220, 2500)):
+    for _ in range(N(220, 12000)):
         sizing = rng.choice(SIZINGS)
         # imposed sizings are defined for formats with a non-negative integer length (C08's domain): 'smallest' of a format with
         # n_frac > n_word and one with n_frac < 0 has no bits at all and is rejected with a ValueError, which is not a produced object
@@ -52,7 +52,7 @@ def configs(tier, seed):
         r, o = rng.choice(C.modes())
         out.append(dict(part='binop', op=rng.choice(list(BINOPS)), x=list(x), y=list(y), sizing=sizing, rounding=r, overflow=o,
                         shape=rng.choice(([], [], [2]))))
-    for _ in range(N(60, 600)):
+    for _ in range(N(60, 2000)):
         x = rng.choice([f for f in sm if f[1] <= 8])
         r, o = rng.choice(C.modes())
         out.append(dict(part='constop', op=rng.choice(('add', 'sub', 'mul')), x=list(x), sizing=rng.choice(('same', 'optimal', 'largest')),
@@ -61,14 +61,14 @@ def configs(tier, seed):
     for x in C.pick(sm, N(24, len(sm)), rng):
         for u in ('neg', 'abs', 'pos', 'invert', 'deepcopy', 'copy', 'index', 'like_self'):
             out.append(dict(part='unary', op=u, x=list(x), shape=([2] if u == 'index' else [])))
-    for _ in range(N(60, 600)):
+    for _ in range(N(60, 3000)):
         x = rng.choice([f for f in sm if 0 <= f[2] <= f[1]])
         out.append(dict(part='shift', dir=rng.choice(('l', 'r')), mode=rng.choice(('expand', 'trunc', 'keep')), x=list(x), n=rng.randrange(0, x[1] + 4)))
-    for _ in range(N(30, 300)):
+    for _ in range(N(30, 1500)):
         x = rng.choice(sm)
         out.append(dict(part='bitop', op=rng.choice(list(BITOPS)), x=list(x), y=[rng.choice((True, False)), x[1], rng.choice((0, x[1]))]))
     # conversions
-    for _ in range(N(80, 800)):
+    for _ in range(N(80, 4000)):
         x, y = rng.choice(sm), rng.choice(sm)
         if rng.random() < 0.4:
             s0, n0, f0 = x
